@@ -23,7 +23,7 @@ def run():
     errors = []
     from . import index_exprs
     jobs = [('IndexExprs.lean', index_exprs.generate)]
-    for mod in ('constants', 'rotmodes', 'loops', 'colour', 'effects'):
+    for mod in ('constants', 'rotmodes', 'loops', 'colour', 'caches', 'effects'):
         try:
             m = __import__('harness.translate.' + mod, fromlist=['generate'])
             jobs.append((m.FILE, m.generate))
